@@ -81,7 +81,7 @@ impl Property for P {
     }
     fn cases(tier: Tier) -> u64 {
         match tier {
-            Tier::Quick => 3_000,
+            Tier::Quick => 20_000,
             Tier::Thorough => 150_000,
         }
     }
